@@ -107,13 +107,18 @@ func openStart(n ast.Vertex) bool {
 }
 
 type posChecker struct {
-	grammar string
-	fails   int
+	grammar  string
+	fails    int
+	newClass int // > 0 while inside the class reference of a new expression
 }
 
 func (pc *posChecker) fail(id, kind, parent, what string) {
 	if pc.fails < 8 {
-		Fail(id, pc.grammar+" "+kind+" in "+parent+": "+what)
+		ctx := ""
+		if pc.newClass > 0 {
+			ctx = " (inside the class reference of new)"
+		}
+		Fail(id, pc.grammar+" "+kind+" in "+parent+ctx+": "+what)
 	}
 	pc.fails++
 }
@@ -146,7 +151,14 @@ func (pc *posChecker) check(n ast.Vertex, parent string) span {
 			kids = sl.VL
 		}
 		for _, k := range kids {
+			inNewClass := kind == "ExprNew" && sl.Name == "Class"
+			if inNewClass {
+				pc.newClass++
+			}
 			ks := pc.check(k, kind)
+			if inNewClass {
+				pc.newClass--
+			}
 			sp.merge(ks)
 			kp := k.GetPosition()
 			if kp == nil || pos == nil {
@@ -154,13 +166,13 @@ func (pc *posChecker) check(n ast.Vertex, parent string) span {
 			}
 			// children lie within the parent, siblings are ordered and disjoint
 			if kp.StartPos >= 0 && pos.StartPos >= 0 && kp.StartPos < pos.StartPos {
-				pc.fail("C05:child-within-parent", kindName(KindOf(k)), kind, "starts before its parent")
+				pc.fail("C05:child-within-parent", "child "+sl.Name, kind, "starts before its parent")
 			}
 			if kp.EndPos >= 0 && pos.EndPos >= 0 && kp.EndPos > pos.EndPos {
-				pc.fail("C05:child-within-parent", kindName(KindOf(k)), kind, "ends after its parent")
+				pc.fail("C05:child-within-parent", "child "+sl.Name, kind, "ends after its parent")
 			}
 			if kp.StartPos >= 0 && kp.StartPos < lastChildEnd {
-				pc.fail("C05:siblings-ordered-disjoint", kindName(KindOf(k)), kind, "overlaps or precedes its left sibling")
+				pc.fail("C05:siblings-ordered-disjoint", "child "+sl.Name, kind, "overlaps or precedes its left sibling")
 			}
 			if kp.EndPos >= 0 {
 				lastChildEnd = kp.EndPos
@@ -257,7 +269,7 @@ func H_C08() {
 		} else if len(a.Errs) > 0 && hasPrefixStr(a.Errs[0].Msg, "syntax error") {
 			why = "syntax error"
 		}
-		Fail("C08:trivia-keeps-program-valid", why+" ("+ctxName(ParamInt("prev"))+")")
+		Fail("C08:trivia-keeps-program-valid", why+" ("+ctxName(ParamStr("ctx"))+")")
 		return
 	}
 	eq, diff := TreeEq(a.Root, b.Root, CmpTokens)
@@ -271,10 +283,9 @@ func H_C08() {
 
 // ctxName: coarse description of the token before the gap (used in signatures so that
 // the known halt-compiler finding does not cover anything else).
-func ctxName(prev int) string {
-	switch token.ID(prev) {
-	case token.T_HALT_COMPILER:
-		return "after __halt_compiler"
+func ctxName(ctx string) string {
+	if ctx == "halt-compiler-head" {
+		return "between __halt_compiler and its ';'"
 	}
 	return "between ordinary tokens"
 }
